@@ -59,7 +59,8 @@ EntriesOK(s, ents) ==
   IF ents = <<>> THEN [ok |-> TRUE, st |-> s]
   ELSE LET e == Head(ents)
            x == ApplyEntry(s, [i |-> e.i, c |-> e.c, li |-> e.li])
-           good == /\ e.i > s.idx
+           \* (the repository's own unit tests apply entries with arbitrary indices: "anyindex")
+           good == /\ (e.i > s.idx \/ ("anyindex" \in DOMAIN e /\ e.anyindex))
                    /\ e.val = x.val
                    /\ RespsMatchT(x.r, e.rs)
                    /\ (e.data => e.rev = e.i)          \* revision = log position
@@ -72,6 +73,10 @@ TUpdate ==
      /\ x.ok
      /\ Ev.idx = x.st.idx        \* C01: reported applied index = index of last command
      /\ Ev.lidx = x.st.lidx      \* C03: leader index is a function of the log
+     \* C11 (the apply side): the applied-index listener is told, once per Update, the leader index the batch
+     \* recorded - or, if no entry carried one, the index of its last entry
+     /\ ("notified" \in DOMAIN Ev =>
+           Ev.notified = <<IF \E i \in 1..Len(Ev.ents) : Ev.ents[i].li # NoLI THEN x.st.lidx ELSE x.st.idx>>)
      /\ st' = [st EXCEPT ![Ev.rep] = x.st]
      /\ hist' = IF hist # <<>> /\ Ev.rep = 1 THEN Append(hist, x.st.kv) ELSE hist
   /\ UNCHANGED <<pinned, dlog>>
@@ -145,6 +150,23 @@ TRecover ==
   /\ IsEvent("recover")
   /\ st' = [st EXCEPT ![Ev.to] = pinned[Ev.from]]
   /\ UNCHANGED <<pinned, hist, dlog>>
+
+\* traces of the repository's own tests (vdrive fsmtrace): "adopt" = the complete state a state machine instance shows
+\* after Open / RecoverFromSnapshot (where it comes from is not traced); "content" = its complete state before Close,
+\* which must be what the updates in between lead to
+TAdopt ==
+  /\ IsEvent("adopt")
+  /\ Len(Ev.kvs) = Cardinality({Ev.kvs[i].k : i \in 1..Len(Ev.kvs)})
+  /\ st' = [st EXCEPT ![Ev.rep] = [kv |-> [k \in {Ev.kvs[i].k : i \in 1..Len(Ev.kvs)} |->
+                                              Ev.kvs[CHOOSE i \in 1..Len(Ev.kvs) : Ev.kvs[i].k = k].v],
+                                    idx |-> Ev.idx, lidx |-> Ev.lidx]]
+  /\ UNCHANGED <<pinned, hist, dlog>>
+TContent ==
+  /\ IsEvent("content")
+  /\ Ev.idx = st[Ev.rep].idx /\ Ev.lidx = st[Ev.rep].lidx
+  /\ Len(Ev.kvs) = Cardinality({Ev.kvs[i].k : i \in 1..Len(Ev.kvs)})
+  /\ {<<Ev.kvs[i].k, Ev.kvs[i].v>> : i \in 1..Len(Ev.kvs)} = {<<k, st[Ev.rep].kv[k]>> : k \in DOMAIN st[Ev.rep].kv}
+  /\ UNCHANGED <<st, pinned, hist, dlog>>
 
 TReset ==
   /\ IsEvent("reset")
@@ -228,7 +250,7 @@ TSnapAt ==
   /\ {<<Ev.pairs[i].k, Ev.pairs[i].v>> : i \in 1..Len(Ev.pairs)} = {<<k, hist[Ev.index][k]>> : k \in DOMAIN hist[Ev.index]}
   /\ UNCHANGED <<st, pinned, hist, dlog>>
 
-TNext == TSnapAt \/ TLazyRead \/ TDLog \/ TRecovered \/ TRecStart \/ TRoTxnAt \/ TLookupAt \/ TIterAt \/ TUpdate \/ TLookup \/ TIter \/ TRoTxn \/ TIndex \/ TReopen \/ TPrepare \/ TRecover \/ TReset
+TNext == TSnapAt \/ TLazyRead \/ TDLog \/ TRecovered \/ TRecStart \/ TRoTxnAt \/ TLookupAt \/ TIterAt \/ TUpdate \/ TLookup \/ TIter \/ TRoTxn \/ TIndex \/ TReopen \/ TPrepare \/ TRecover \/ TReset \/ TAdopt \/ TContent
 
 TSpec == TInit /\ [][TNext]_vars
 
